@@ -631,6 +631,8 @@ def s_tan(t):
     return r
 
 
+T.DERIV_RULES["sinf"] = lambda arg, app: T.opaque("cosf")(arg)
+T.DERIV_RULES["cosf"] = lambda arg, app: T.neg(T.opaque("sinf")(arg))
 T.DERIV_RULES["atanf"] = lambda arg, app: T.div(rv(1), T.add(rv(1), T.mul(arg, arg)))
 T.DERIV_RULES["tanf"] = lambda arg, app: T.add(rv(1), T.mul(app, app))
 handles("atan")(floatfunc(s_atan))
